@@ -668,11 +668,11 @@ Proof. vm_compute. repeat split. Qed.
    ====================================================================== *)
 From QV Require Import Model.C11_lsoda Proofs.C11_lsoda.
 
-(* The source as it is: _backstep restarts from the saved state and then
-   calls ode.integrate(t) even when t is the restart time: lsoda is left
-   unusable and the next mcstep raises "illegal input".  Window [0, 8] after
-   one step, lsoda's next step 2, back-step to the window's start, then a
-   forward request. *)
+(* The source BEFORE commit 9575753 (fixed = false): _backstep restarted from
+   the saved state and then called ode.integrate(t) even when t is the restart
+   time: lsoda was left unusable and the next mcstep raised "illegal input".
+   Window [0, 8] after one step, lsoda's next step 2, back-step to the
+   window's start, then a forward request. *)
 Theorem C11_lsoda_backstep_at_back_refuted :
   exists ops, probes_ok l_new ops /\
     l_poison (l_final false l_new ops) = true /\
@@ -684,8 +684,8 @@ Proof.
 Qed.
 Print Assumptions C11_lsoda_backstep_at_back_refuted.
 
-(* With the repair (no integrate call when the restart already stands at the
-   requested time): after EVERY history of set_state / mcstep calls, with any
+(* The source as it is (fixed = true; no integrate call when the restart
+   already stands at the requested time): after EVERY history of set_state / mcstep calls, with any
    oracle values, lsoda is never called with its own time when freshly reset
    (it is never left unusable), and a freshly reset integrator stands at the
    front of the window. *)
